@@ -509,7 +509,7 @@ func (w *world) verify(b *block.Block) (*block.Block, error) {
 	// attempt guards against a loaded machine.
 	var nb *block.Block
 	var err error
-	for _, d := range []time.Duration{2 * time.Second, 5 * time.Second} {
+	for _, d := range []time.Duration{2 * time.Second, 30 * time.Second} {
 		nb, err = transmit(b)
 		if err != nil {
 			return nil, fmt.Errorf("transmit: %v", err)
